@@ -895,19 +895,19 @@ func (in *Interp) binary(e *E, sc *Scope) (Value, signal) {
 			}
 			return math.Floor(lf / rf), none
 		case "modint":
-			if lf < 0 || rf <= 0 || lf != math.Trunc(lf) || rf != math.Trunc(rf) || lf >= 1<<53 || rf >= 1<<53 {
+			// "integer remainder": both operands are taken as integers (fraction dropped). Specified here for
+			// non-negative operands below 2^53 whose divisor has an integer part >= 1 (sign rules for negative
+			// operands, and what a divisor below 1 means, are not documented).
+			if lf != lf || rf != rf || math.Signbit(lf) || lf < 0 || rf < 1 || lf >= 1<<53 || rf >= 1<<53 {
 				return nil, unspec("modulo-outside-non-negative-integers")
 			}
-			if math.Signbit(lf) {
-				return nil, unspec("modulo-outside-non-negative-integers") // -0
-			}
-			return math.Mod(lf, rf), none
+			return math.Mod(math.Trunc(lf), math.Trunc(rf)), none
 		}
 	case "cmp":
 		if lf, ok := lv.(float64); ok {
 			if rf, ok := rv.(float64); ok {
 				if lf != lf || rf != rf {
-					return nil, unspec("nan-comparison")
+					return false, none // float arithmetic: every ordered comparison with NaN is false
 				}
 				return cmpRes(e.K, lf < rf, lf == rf), none
 			}
